@@ -44,10 +44,7 @@ let parse_args (conv : string -> 'a) (toks : string list) : ('a * Rair.nat) list
 (* ---- operands given as RAW read/write facts: uses and defs are derived by the extracted RwRuleModel.classify, the idiom
    class by RwRuleModel.idiom_of ("J <tag> <same> <imm|-> <osize> <a64> <n> items", item = R name <11 facts> | U name w | D name w) *)
 let list_groups = ref 0
-let alu_of = function
-  | "xor" -> Rair.AXor | "sub" -> Rair.ASub | "or" -> Rair.AOr | "and" -> Rair.AAnd | "add" -> Rair.AAdd | "shl" -> Rair.AShl
-  | "shr" -> Rair.AShr | "sar" -> Rair.ASar | "rol" -> Rair.ARol | "ror" -> Rair.ARor | "pxor" -> Rair.VXor | "psubd" -> Rair.VSubD
-  | "pcmpeqd" -> Rair.VCmpEqD | "pand" -> Rair.VAnd | "por" -> Rair.VOr | _ -> Rair.AOther
+let alu_of (tag : string) : Rair.alu = Rair.alu_of_id Rair.idiom_tags (n_of_int (int_of_string tag))
 let parse_items (conv : string -> 'a) (toks : string list) : ('a * Rair.nat) list * ('a * Rair.nat) list =
   match toks with
   | "J" :: tag :: same :: imm :: osize :: a64 :: n :: rest ->
@@ -157,7 +154,7 @@ let () =
   let cur = ref "" and ss = ref [] and ts = ref [] and hs = ref [] and tl = ref [] and bad = ref None in
   let finish () =
     (match !bad with
-     | Some why -> Printf.printf "R %s bad %s\n" !cur why
+     | Some why -> Printf.printf "R %s bad reason=%s %s\n" !cur (if String.length why > 30 && String.sub why 0 12 = "unmodelled: " then (if String.length why > 36 && String.sub why 12 13 = "register list" then "register-list-not-consecutive" else "unmodelled-instruction") else "dump-not-parsable") why
      | None ->
        if !ss = [] then Printf.printf "R %s nodump\n" !cur
        else begin
@@ -166,14 +163,32 @@ let () =
          (* = Rair.validate_full sp tp hints, unfolded to report which part refuses *)
          if Rair.check sp tp ann then begin
            if Rair.check_progress tp (Rair.infer_ranks tp) then Printf.printf "R %s ok %d %d\n" !cur (List.length sp) (List.length tp)
-           else Printf.printf "R %s reject progress: a cycle of inserted instructions\n" !cur
+           else Printf.printf "R %s reject reason=cycle-of-inserted-instructions progress\n" !cur
          end
          else begin
            match Rair.first_bad sp tp ann with
            | Some t -> let t = int_of_nat t in
              let line = try List.nth (List.rev !tl) t with _ -> "?" in
              let neq = (match (try List.nth ann t with _ -> None) with Some (_, e) -> List.length e | None -> -1) in
-             Printf.printf "R %s reject pc=%d eqs=%d at: %s | %s\n" !cur t neq line (ir_search sp tp 60);
+             (* diagnosis (untrusted, for the refusal histogram): which clause of check_pc fails at that pc *)
+             let reason =
+               (match (try List.nth ann t with _ -> None), (try Some (List.nth tp t) with _ -> None) with
+                | Some (s, e), Some ti ->
+                  let si = (try Some (List.nth sp (int_of_nat s)) with _ -> None) in
+                  (match ti, si with
+                   | Rair.TOp (o, tu, td), Some (Rair.SOp (o', su, sd)) ->
+                     if o <> o' then "opcode-differs" else if not (Rair.check_uses e su tu) then "use-without-equation"
+                     else (match Rair.defs_eqs e sd td with None -> "def-shape-differs" | Some _ -> "next-annotation-not-implied")
+                   | Rair.TCond (o, tu, _), Some (Rair.SCond (o', su, _)) ->
+                     if o <> o' then "opcode-differs" else if not (Rair.check_uses e su tu) then "use-without-equation" else "branch-edge-not-implied"
+                   | Rair.TJmpTab (o, tu, _), Some (Rair.SJmpTab (o', su, _)) ->
+                     if o <> o' then "opcode-differs" else if not (Rair.check_uses e su tu) then "use-without-equation" else "jump-table-edge-not-implied"
+                   | Rair.TRet tu, Some (Rair.SRet su) -> if not (Rair.check_uses e su tu) then "return-value-without-equation" else "?"
+                   | (Rair.TOp _ | Rair.TCond _ | Rair.TJmpTab _ | Rair.TRet _), _ -> "source-instruction-differs"
+                   | Rair.TMove _, _ | Rair.TSwap _, _ -> "edge-after-inserted-move-not-implied"
+                   | Rair.TLabel _, _ | Rair.TJmp _, _ -> "edge-at-label-or-jump-not-implied")
+                | _, _ -> "no-annotation") in
+             Printf.printf "R %s reject pc=%d eqs=%d reason=%s at: %s | %s\n" !cur t neq reason line (ir_search sp tp 60);
              if Sys.getenv_opt "C05_DEBUG" <> None then begin
                let show_loc = function Rair.LReg (g, i) -> Printf.sprintf "r%s.%s" (string_of_cn g) (string_of_cn i) | Rair.LSlot o -> "s" ^ string_of_cz o in
                List.iteri (fun i a -> if (match Sys.getenv_opt "C05_WIN" with Some w -> (match String.split_on_char (String.get "," 0) w with [a; b] -> i >= int_of_string a && i <= int_of_string b | _ -> true) | None -> i >= t - 6 && i <= t + 1) then begin
